@@ -22,7 +22,7 @@ from . import common
 
 ID = "C11"
 LEVEL = "exploration"
-KNOBS = {"hows": ["execute"], "p_result": 0.7, "p_decisions": 0.5, "p_handler": 0.5, "p_abort": 0.35, "p_abort_if": 0.7,
+KNOBS = {"p_firing_timeout": 0.12, "hows": ["execute"], "p_result": 0.7, "p_decisions": 0.5, "p_handler": 0.5, "p_abort": 0.35, "p_abort_if": 0.7,
          "p_budget": 0.3, "p_generous": 0.5, "p_ok": 0.15, "p_retryable": 0.8}
 RULE = ("seeded swarm over the execute entry points (Retry/Policy/RetryPolicy/from_config, +no-retry Policy, +breaker "
         "rejection; sync+async), abort at every poll index, handler decisions, plus a faulty sub-batch injecting raising "
@@ -48,6 +48,11 @@ def gen(seed, tier="quick"):
         # breaker already open -> rejection
         scn["cfg"]["breaker"] = {"kind": "real", "failure_threshold": 1, "recovery_us": 30_000_000}
         scn["pre"] = (scn.get("pre") or []) + [["fail", "TRANSIENT"]]
+    if r.random() < 0.1 and scn["entry"] != "Policy.noretry":
+        # the operation itself asks to stop
+        call = scn["calls"][0]
+        i = r.randrange(0, max(1, min(scn["cfg"]["max_attempts"], len(call["attempts"]))))
+        call["attempts"][i] = {"kind": "abort", "dur": call["attempts"][i].get("dur", 0)}
     # faulty sub-batch (kept separate: ~25 %)
     if r.random() < 0.25 and scn["entry"] != "Policy.noretry":
         call = scn["calls"][0]
